@@ -3,9 +3,10 @@
 Extracts with `ast` the CONTROL SKELETON of
 
   * `run_in_process` (outer part) and its nested coroutine `_run`
-    (AsyncExitStack / `if collect_logging` / `with ProcessPoolExecutor` /
-    run_in_executor / `event.set()` / `try: ret = await future` with its handlers
-    in order / `return ret, exc`),
+    (AsyncExitStack / `if collect_logging` / `executor = ProcessPoolExecutor(...)` /
+    `try:` run_in_executor / `event.set()` / `try: ret = await future` with its handlers
+    in order / `finally: await loop.run_in_executor(None, executor.shutdown)` /
+    `return ret, exc`; a synchronous `with` is rejected),
   * `RunningProcess.__init__`, `.__await__`, `.interrupt`, `.send_signal`,
     `.terminate`, `.kill`,
   * the fields of `ExitedProcess`,
@@ -36,7 +37,9 @@ class SkeletonError(Exception):
 RUN_LEAVES = {
     'logging_initializer = await stack.enter_async_context(MultiprocessingLogging(mp_context=mp_context))': 'EnterLogging',
     'initializer = partial(_call_all, logging_initializer, initializer)': 'WrapInitializer',
+    'executor = ProcessPoolExecutor(max_workers=1, mp_context=mp_context, initializer=initializer)': 'NewExecutor',
     'loop = asyncio.get_running_loop()': 'GetLoop',
+    'await loop.run_in_executor(None, executor.shutdown)': 'ShutdownInThread',
     'future = loop.run_in_executor(executor, func)': 'Submit',
     'process = list(executor._processes.values())[0]': 'GetProcess',
     'event.set()': 'EventSet',
@@ -126,17 +129,18 @@ def tr_run_stmt(st, where: str) -> str | None:
             raise SkeletonError(f'{where}:{ln}: async with other than `{STACK_CTOR} as stack`')
         return f'(AsyncWithExitStack {tr_run_body(st.body, where)})'
     if isinstance(st, ast.With):
-        if len(st.items) != 1 or norm(st.items[0].context_expr) != EXECUTOR_CTOR or \
-                st.items[0].optional_vars is None or norm(st.items[0].optional_vars) != 'executor':
-            raise SkeletonError(f'{where}:{ln}: with other than `{EXECUTOR_CTOR} as executor`')
-        return f'(WithExecutor {tr_run_body(st.body, where)})'
+        raise SkeletonError(f'{where}:{ln}: synchronous `with` inside the coroutine (its __exit__ would block the event loop)')
     if isinstance(st, ast.If):
         if norm(st.test) != 'collect_logging' or st.orelse:
             raise SkeletonError(f'{where}:{ln}: if other than `if collect_logging:` without else')
         return f'(IfCollectLogging {tr_run_body(st.body, where)})'
     if isinstance(st, ast.Try):
-        if st.orelse or st.finalbody:
-            raise SkeletonError(f'{where}:{ln}: try with else/finally')
+        if st.orelse:
+            raise SkeletonError(f'{where}:{ln}: try with else')
+        if st.finalbody:
+            if st.handlers:
+                raise SkeletonError(f'{where}:{ln}: try with both handlers and finally')
+            return f'(TryFinally {tr_run_body(st.body, where)} {tr_run_body(st.finalbody, where)})'
         hs = []
         for h in st.handlers:
             if h.type is None:
@@ -303,7 +307,9 @@ def translate(repo: Path) -> str:
         'Inductive action :=',
         '| EnterLogging      (* logging_initializer = await stack.enter_async_context(MultiprocessingLogging(...)) *)',
         '| WrapInitializer   (* initializer = partial(_call_all, logging_initializer, initializer) *)',
+        '| NewExecutor       (* executor = ProcessPoolExecutor(max_workers=1, mp_context=..., initializer=initializer) *)',
         '| GetLoop           (* loop = asyncio.get_running_loop() *)',
+        '| ShutdownInThread  (* await loop.run_in_executor(None, executor.shutdown) *)',
         '| Submit            (* future = loop.run_in_executor(executor, func) *)',
         '| GetProcess        (* process = list(executor._processes.values())[0] *)',
         '| EventSet          (* event.set() *)',
@@ -320,7 +326,7 @@ def translate(repo: Path) -> str:
         '| Seq (s1 s2 : stmt)',
         '| IfCollectLogging (body : stmt)',
         '| AsyncWithExitStack (body : stmt)     (* async with contextlib.AsyncExitStack() as stack *)',
-        '| WithExecutor (body : stmt)           (* with ProcessPoolExecutor(max_workers=1, ...) as executor *)',
+        '| TryFinally (body fin : stmt)',
         '| Try (body : stmt) (handlers : list (exclass * list action))',
         '| ReturnRetExc.                        (* return ret, exc *)',
         '',
